@@ -1,6 +1,7 @@
 """C02 - Hermitian: U unitary at every order, U^dagger its adjoint, H_tilde Hermitian."""
 from .common import Decision, run_units
-from .series_props import fold_canaries
+from .series_props import fold_canaries, specs_nof
+from .secondq_props import specs_secondq
 from .hermitian_common import specs_hermitian, LEAN_SETTING_NOTE, LEAN_VACUITY
 
 LEAN = ["PV.pairing", "PV.unit_left", "PV.unit_right", "PV.C02_unit_left", "PV.C02_unit_right", "PV.C02_adjoint", "PV.C02_Htilde_star",
@@ -9,7 +10,8 @@ LEAN = ["PV.pairing", "PV.unit_left", "PV.unit_right", "PV.C02_unit_left", "PV.C
 
 def check(tier, seed):
     d = Decision("C02", tier, seed)
-    d.add_units(fold_canaries(run_units(specs_hermitian(tier))))
+    # operator-valued (second-quantized) Hermitian input is also 'accepted by block_diagonalize': the operator algebra and its solver are under the C07 / C08 contracts
+    d.add_units(fold_canaries(run_units(specs_hermitian(tier) + specs_nof(tier) + specs_secondq(tier))))
     d.add_lean(LEAN + LEAN_VACUITY)
     d.assumptions += [LEAN_SETTING_NOTE, "input precondition: H is Hermitian and masks are symmetric",
                       "bridge C18 -> Lean for the product declared hermitian: if U'^dagger - star U' vanishes below order n then the "
@@ -17,5 +19,7 @@ def check(tier, seed):
     d.not_decided += ["rounding clause for floating-point inputs (A-FP)"]
     d.explanation = ("T-adj (pairing U'^dagger = star U' by contraction on the pairing defect), T-unit (U^dagger U = U U^dagger = 1), the adjoint "
                      "relation between the second and third outputs and Hermiticity of H_tilde are machine-checked in Lean from the extracted equations.")
+    d.run_battery("nof_battery.py", ["secondq"], "operator-valued input: 6 second-quantized models + 2 operator masks against numpy block_diagonalize on truncated Fock spaces; "
+                  "U^dagger U = 1 and U^dagger H U = H_tilde within the operator algebra (see C07)", timeout=3000)
     d.run_battery("bd_battery.py", ['herm'], "<= 3 blocks of size <= 3, <= 2 parameters, total order <= 3, dense/sparse, fixed mask family; see replay/bd_battery.py")
     return d.finish(level="proof", trusted_base=["leanalg/lean/PV/*.lean", "leanalg/genlean.py", "leanalg/extract.py", "contracts/*.py"])
